@@ -325,7 +325,7 @@ func (c *Ctx) evalStr(e ast.Expr, recv types.Object, env defEnv) (constant.Value
 	// recv.<...>.Ref.String(): empty iff the definition has no $ref member
 	if call, ok := e.(*ast.CallExpr); ok && len(call.Args) == 0 {
 		if se, ok := unparen(call.Fun).(*ast.SelectorExpr); ok && se.Sel.Name == "String" {
-			if p, ok := c.apath(se.X); ok && p.Root == recv && len(p.Steps) > 0 && p.Steps[len(p.Steps)-1] == "Ref" {
+			if p, ok := c.apath(se.X); ok && p.Root == recv && len(p.Steps) > 0 && p.Steps[len(p.Steps)-1] == "Ref" && c.onlyEmbeddedBefore(derefType(recv.Type()), p.Steps) {
 				return env.member("$ref")
 			}
 		}
@@ -574,4 +574,41 @@ func (c *Ctx) decideRequired(rule, key string, n *types.Named, d *metaDef, m str
 			return
 		}
 	}
+}
+
+// onlyEmbeddedBefore: every step of the path but the last goes through an embedded field, i.e. the last step is a
+// (promoted) member of the value itself and not of something it merely points to (r.Refable.Ref, not r.Schema.Ref).
+func (c *Ctx) onlyEmbeddedBefore(t types.Type, steps []string) bool {
+	for i, s := range steps {
+		st, ok := derefType(t).Underlying().(*types.Struct)
+		if !ok {
+			return false
+		}
+		found := false
+		for k := 0; k < st.NumFields(); k++ {
+			f := st.Field(k)
+			if f.Name() != s {
+				continue
+			}
+			found = true
+			if i < len(steps)-1 && !f.Embedded() {
+				return false
+			}
+			t = f.Type()
+		}
+		if !found {
+			// promoted through an embedded struct that the access path does not spell out
+			promoted := false
+			for k := 0; k < st.NumFields(); k++ {
+				f := st.Field(k)
+				if f.Embedded() {
+					if c.onlyEmbeddedBefore(f.Type(), steps[i:]) {
+						promoted = true
+					}
+				}
+			}
+			return promoted
+		}
+	}
+	return true
 }
